@@ -179,26 +179,30 @@ def b_multipoint(ctx):
     if ctx.tier == 'thorough':
         seqs += [[50, 150, -150, 300, -300, 300, -100], [200, 600, 1000, 60, 1500, 200, 80, 400, 1500, 700, 200], [100, -100, 100, -100, 300, -300]]
     ratio_sets = [(1.0,), (1.0, 0.5), (1.0, 2.0, 3.0), (0.5, 1.0, 2.0), (2.0, 0.5)]
-    ctx.bound = f"{len(seqs)} sequences x point sets with load ratios {ratio_sets} x laws neuber (+ seegerbeste in thorough)"
+    ctx.bound = f"{len(seqs)} sequences x point sets with load ratios {ratio_sets} x laws neuber (+ seegerbeste in thorough) x node ids ascending / not ascending"
     ctx.rule = "non-trivial: >= 2 points with different ratios; distinct by (sequence, ratios, law)"
     laws = ['neuber'] if ctx.tier == 'quick' else ['neuber', 'seegerbeste']
-    for lawname, seq, ratios in itertools.product(laws, seqs, ratio_sets):
+    # the labels of the points are bookkeeping: ids 0..n-1 in order, and ids that are not listed in ascending order (13, 11, 12, ...: a filtered / joined mesh) -
+    # added after seed C05-d re-sorted the signal of the first pass by node id
+    for lawname, seq, ratios, labelling in itertools.product(laws, seqs, ratio_sets, ('ascending', 'unordered')):
         if not ctx.mine():
             continue
+        if labelling == 'unordered' and len(ratios) < 2:
+            continue
         seq = [float(v) for v in seq]
-        nodes = list(range(len(ratios)))
+        nodes = list(range(len(ratios))) if labelling == 'ascending' else [13, 11, 12, 10][:len(ratios)]
         idx = pd.MultiIndex.from_product([range(len(seq)), nodes], names=['load_step', 'node_id'])
         loads = pd.Series([v * r for v in seq for r in ratios], index=idx)
         maxima = pd.Series([max(abs(v) for v in seq) * r for r in ratios], index=pd.Index(nodes, name='node_id'))
         law_m = make_law(lawname, maxima)
-        ctx.case(len(set(ratios)) > 1, key=(lawname, tuple(seq), ratios))
+        ctx.case(len(set(ratios)) > 1, key=(lawname, tuple(seq), ratios, labelling))
         try:
             rec, det = run_detector(loads, law_m)
         except Exception as e:   # noqa
-            ctx.fail(f'C05:multi-point-raises:{type(e).__name__}', f'multi-point run raises {type(e).__name__}: {e} for {seq} x {ratios}', {'sequence': seq, 'ratios': ratios})
+            ctx.fail(f'C05:multi-point-raises:{type(e).__name__}', f'multi-point run raises {type(e).__name__}: {e} for {seq} x {ratios}, node ids {nodes}', {'sequence': seq, 'ratios': ratios, 'node_ids': nodes})
             continue
         cm = rec.collective
-        for node, r in zip(nodes, ratios):
+        for node, r in zip(range(len(nodes)), ratios):        # the collective numbers the points by position (assessment_point_index)
             law_s = make_law(lawname, max(abs(v) for v in seq) * r)
             recs, dets = run_detector([v * r for v in seq], law_s)
             cs = recs.collective
@@ -219,7 +223,7 @@ def b_multipoint(ctx):
                     if not bad and list(sub[col]) != list(cs[col]):
                         bad = f'column {col}: batch {list(sub[col])} vs alone {list(cs[col])}'
             if bad:
-                ctx.fail(f'C05:multi-point:{lawname}', f'{lawname}: point {node} (ratio {r}) of {seq} x {ratios}: {bad}', {'sequence': seq, 'ratios': ratios, 'node': node})
+                ctx.fail(f'C05:multi-point:{lawname}', f'{lawname}: point {node} (ratio {r}) of {seq} x {ratios}, node ids {nodes}: {bad}', {'sequence': seq, 'ratios': ratios, 'node': node, 'node_ids': nodes})
     ctx.sample({'sequence': [100, 0, 80, 20, 60, 40], 'ratios': (1.0, 2.0, 3.0)})
 
 
